@@ -1251,8 +1251,43 @@ impl<'t> Gen<'t> {
         }
         _ => self.vec_read(cx, d),
       },
-      Ty::Bool => match self.t.weighted(&[3, 8, 4, 2]) {
+      Ty::Bool => match self.t.weighted(&[3, 8, 4, 2, 2]) {
         0 => self.leaf(ty, cx),
+        4 => {
+          // equality of strings (by content) and of booleans; the right operand is sometimes built to be equal
+          let operand = if self.t.bool(3, 4) { Ty::Str } else { Ty::Bool };
+          self.feat(if operand == Ty::Str { "str-equality" } else { "bool-equality" });
+          let op = ["==", "!="][self.t.choose(2)];
+          // boolean operands are leaves or order comparisons: the printer re-associates `a == (b == c)`
+          // (recorded C08 finding), which would change the typing of the pretty-printed document
+          let mut operand_expr = |g: &mut Self, cx: &mut Ctx| -> Expr {
+            if operand == Ty::Str {
+              g.expr(&Ty::Str, cx, d.min(2))
+            } else if g.t.bool(1, 2) {
+              g.leaf(&Ty::Bool, cx)
+            } else {
+              let op = ["<", "<=", ">", ">="][g.t.choose(4)];
+              let x = g.expr(&Ty::Int, cx, d.min(1));
+              let y = g.expr(&Ty::Int, cx, d.min(1));
+              Expr::new(Ty::Bool, EK::Binary(op, Box::new(x), Box::new(y)))
+            }
+          };
+          let a = operand_expr(self, cx);
+          // a copy is only taken of expressions without binders (names stay unique per member)
+          let dbg = format!("{:?}", a.kind);
+          let copyable = !["Lambda", "Let", "Match", "IfLet", "Block"].iter().any(|k| dbg.contains(k));
+          let b = if copyable && self.t.bool(1, 3) {
+            if operand == Ty::Str && self.t.bool(1, 2) {
+              // equal content, different construction: ("" :: a)
+              Expr::new(Ty::Str, EK::Binary("::", Box::new(Expr::new(Ty::Str, EK::Str(String::new()))), Box::new(a.clone())))
+            } else {
+              a.clone()
+            }
+          } else {
+            operand_expr(self, cx)
+          };
+          Expr::new(Ty::Bool, EK::Binary(op, Box::new(a), Box::new(b)))
+        }
         1 => {
           let op = ["<", "<=", ">", ">=", "==", "!="][self.t.choose(6)];
           let a = self.expr(&Ty::Int, cx, d);
